@@ -29,7 +29,7 @@ NEEDS = {
  "C08-m3": ("InitHello length trailer bound off by two", "trailer equal to len-1 or len of the first (unauthenticated) handshake message", ""),
  "C09-m1": ("fragswarm MTU cap precedence slip", "small inner MTU, payload in the top 3810 bytes below MTU()", ""),
  "C09-m2": ("p2pmux caches the header size as the number of IOVec buffers", "channel header longer than one byte, payload within header-1 bytes of MTU()", ""),
- "C09-m3": ("quicswarm readFrame rejects frames of exactly the limit", "an Ask of exactly MTU() bytes on a QUIC swarm", "NOT DETECTED: quicswarm runs in no check (Tier B was not built; DESIGN.md 12.2)"),
+ "C09-m3": ("quicswarm readFrame rejects frames of exactly the limit", "an Ask of exactly MTU() bytes on a QUIC swarm", "missed at first: quicswarm ran in no check; the Tier B leg quic/mem was built (real quic-go on the real clock, sequential seeded workload) and reports it through a control-message rule"),
  "C10-m1": ("fragswarm completion by countdown (duplicates count)", "a duplicated fragment before the last distinct one arrives", ""),
  "C10-m2": ("mbapp bitMap tail mask zero for multiples of 8", "part count 8, 16, 24, ... with one of the last 8 parts missing", ""),
  "C10-m3": ("fragswarm reassembly keyed by destination", "two sources, equal message id and part count, interleaved", ""),
@@ -39,6 +39,27 @@ NEEDS = {
  "C12-m1": ("Queue.Close does not wait for loaned buffers", "Close while a callback runs, a peer still sending, Receive after Close", ""),
  "C12-m2": ("TellHub.Deliver ignores close", "message in the hub with no Receive blocked at Close (multiswarm, mux)", ""),
  "C12-m3": ("AskHub.CloseWithError sets the error after closing the channel", "ServeAsk woken by close running before the closer's next statement (a data race as well)", "missed by C12 and C13 at first: the instrumenter had no scheduling point AFTER close(ch); added, and C12 got the class success-without-message. C14's race legs reported it from the start"),
+ "C13-m1": ("TellHub.Receive fast path closes done before the callback ran", "a deliverer already parked on the rendezvous channel when Receive is entered", ""),
+ "C13-m2": ("AskHub.Deliver abandons a committed request when the hub closes", "hub closed while an ask handler is mid-request", ""),
+ "C13-m3": ("Queue.Receive drops a dequeued message when its context is already cancelled", "receiver cancelled at the moment a message is available (both select cases ready)", ""),
+ "C14-m1": ("TellHub.Deliver returns on close while the callback still runs", "hub closed during a callback, inner swarm recycles buffers, more deliveries before the callback returns", ""),
+ "C14-m2": ("fragswarm keeps the inner swarm's lent buffer", "multi-fragment message over a buffer-recycling inner swarm with other deliveries in between", ""),
+ "C14-m3": ("Channel.Send calls Session.Send under the read lock", "two goroutines sending on one channel (plain read of the counter races with the atomic add)", ""),
+ "C15-m1": ("string mux header buffer one byte short for names of 128 bytes and more", "channel name of at least 128 bytes; misdelivery needs two such names differing in the last byte and a payload starting with that byte", "missed at first (longest names in the pool were 127/128 bytes of one letter, no payload started with a name's last byte); long name pairs and matching payload prefixes added"),
+ "C15-m2": ("uint16 demux rejects frames with an empty payload", "uint16 mux and an empty payload; misdelivery needs the ask path", "missed at first (asks always carried the 12-byte ledger header); empty Asks with a per-channel oracle added"),
+ "C15-m3": ("mux hands tells to the hub from a new goroutine (payload is the inner swarm's buffer)", "no receiver waiting on the channel and another message arriving first", ""),
+ "C16-m1": ("udpswarm parser unmaps IPv4-mapped addresses", "an IPv4-mapped IPv6 address", ""),
+ "C16-m2": ("sshswarm address pattern loses '+'", "a key fingerprint containing '+'", ""),
+ "C16-m3": ("p2pkeswarm.ParseAddr requires exactly one '@'", "a layer beneath P2PKE whose address text contains '@' (SSH form, or P2PKE over P2PKE)", "missed at first (no such nesting in the address stacks); p2pke/mapssh, p2pke/p2pke and two more nestings added"),
+ "C18-m1": ("bucket minimum expiry not recomputed after delete", "delete the earliest-expiring entry, put a later one, expire in between", ""),
+ "C18-m2": ("Expire subtracts earlier buckets' expirations again", "an Expire that removes from one bucket and scans another", ""),
+ "C18-m3": ("a bucket emptied by Expire gets a nil map", "all entries of a bucket expire at once, later Put into it", ""),
+ "C19-m1": ("DistanceCmp resolves ties by key length even when the distances have equal length", "compared keys of different lengths and a query key no longer than both", "NOT DETECTED, and not claimed: cache entries all have the locus' length, so the change is only visible to the pure comparison laws of the statement, which are outside this technique (DESIGN.md 7)"),
+ "C19-m2": ("shallower buckets sorted by distance to the locus instead of the key", "query sharing leading bits with the locus, two entries in one shallower bucket", ""),
+ "C19-m3": ("ForEach start index skips the deepest bucket", "query key sharing more leading bits with the locus than any inserted key", ""),
+ "C20-m1": ("visited mark set after the callback and skipped for empty results", "two contacted nodes naming the same closer node which answers with nothing", ""),
+ "C20-m2": ("DHTGet seeds Closest on NumContacted==1", "the first contacted node fails", ""),
+ "C20-m3": ("DHTPut updates Closest outside the accepted branch", "a farther responder answering while exactly one node has accepted", ""),
 }
 for d in sorted(glob.glob('/verif/seeded/*/')):
     sid = os.path.basename(d.rstrip('/'))
